@@ -67,6 +67,7 @@ type Contract struct {
 	FreshResult bool              // (trusted specs) the result is a fresh allocation
 	CallSites   map[string]int    // callsites <callee> <n>: the function has exactly n call sites of that callee
 	UsesMapNext bool              // some clause mentions the ghost log mapnext
+	UsesGoStart bool              // some clause mentions the ghost counter gostart (go statements executed)
 	NoNilChecks bool              // sweep: nil-dereference obligations are not generated
 }
 
@@ -191,6 +192,9 @@ func (ct *ContractTable) LoadFile(path, pkg string, inRepo bool) {
 			}
 			if cur != nil && strings.Contains(src, "mapnext") {
 				cur.UsesMapNext = true
+			}
+			if cur != nil && strings.Contains(src, "gostart") {
+				cur.UsesGoStart = true
 			}
 			return Clause{Expr: e, Src: src, File: path, Line: ln}
 		}
